@@ -94,6 +94,9 @@ type State struct {
 	mustNotBlock int
 	preemptOn    bool
 	uuidSeq      int
+	lastMs        *Term
+	msOf          map[int]*Term
+	usedUnixMilli bool
 	interleave   *interleaveCtx
 	interleaveFork bool // this state explores "reader runs now": a reader that has to wait (lock held by the writer) simply cannot run here
 }
@@ -152,6 +155,13 @@ func (st *State) clone() *State {
 	n.sigs = append([]sigReg(nil), st.sigs...)
 	n.badSigs = append([]*Term(nil), st.badSigs...)
 	n.decs = append([]decRec(nil), st.decs...)
+	n.lastMs, n.usedUnixMilli = st.lastMs, st.usedUnixMilli
+	if st.msOf != nil {
+		n.msOf = make(map[int]*Term, len(st.msOf))
+		for k, v := range st.msOf {
+			n.msOf[k] = v
+		}
+	}
 	n.interleave = st.interleave
 	n.interleaveFork = st.interleaveFork
 	n.curGo, n.goSeq, n.syncVer, n.mustNotBlock, n.preemptOn, n.uuidSeq = st.curGo, st.goSeq, st.syncVer, st.mustNotBlock, st.preemptOn, st.uuidSeq
